@@ -22,6 +22,9 @@
                      its first n bytes observe what the source's first n bytes observed, and — when
                      the windows are disjoint or start at the same address — Equals the source
                      re-read from the new memory.
+   copy_then_equals_nan_free the same with the DATA hypothesis [nan_free_struct m fuel d (fr_sub src)] (no present
+                     Float field of the source holds a NaN pattern) in place of the class hypothesis
+                     float_free m on the two Equals conclusions; [copy_then_equals] is its corollary.
    copy_then_equals_exact    the same without [Hself] when the source window is exactly n bytes.
    copy_overlap_refuted      overlapping windows: Equals(old source) true, Equals(new source) false.
    copy_self_contained_forced  [Hself] is forced in the model (a size field that under-reports).
@@ -860,20 +863,92 @@ Definition float_free_sdef (d : sdef) : bool :=
   forallb (fun fd => match fbody_of fd with Phys _ _ ty _ => ty_float_free ty | _ => true end) d.(fields).
 Definition float_free (m : module) : bool := forallb float_free_sdef m.
 
+(* the precise DATA condition: no present Float field of the view holds a NaN pattern (recursive over
+   the typed result tree, visiting exactly the members Equals() visits) *)
+Definition scalar_nan_free (k : skind) (kbits : Z) (v : maybe value) : bool :=
+  match k, v with
+  | KFloat, Some (VInt x) => negb (float_is_nan kbits x)
+  | _, _ => true
+  end.
+
+Section NanFree.
+  Variable m : module.
+  Fixpoint nan_free_type (fuel : nat) (ty : ftype) (r : fres) {struct fuel} : bool :=
+    match fuel with
+    | O => true
+    | S f =>
+        match ty with
+        | FScalar k kbits _ => scalar_nan_free k kbits (fr_val r)
+        | FStruct tid _ _ =>
+            match nth_error m tid with
+            | Some d => nan_free_struct f d (fr_sub r)
+            | None => true
+            end
+        | FArray elem _ => forallb (nan_free_type f elem) (fr_elems r)
+        end
+    end
+  with nan_free_struct (fuel : nat) (d : sdef) (e : env) {struct fuel} : bool :=
+    match fuel with
+    | O => true
+    | S f =>
+        forallb (fun i =>
+                   match nth_error d.(fields) i, nth_error e i with
+                   | Some fd, Some (Some r) =>
+                       match fd.(fbody_of), fr_has r with
+                       | Phys _ _ ty _, Some true => nan_free_type f ty r
+                       | _, _ => true
+                       end
+                   | _, _ => true
+                   end) d.(order)
+    end.
+End NanFree.
+
+(* the model comparison of Float values is reflexive off NaN *)
+Lemma float_eqb_refl kb x : float_is_nan kb x = false -> float_eqb kb x x = true.
+Proof. intros H. unfold float_eqb. rewrite H, Z.eqb_refl. reflexivity. Qed.
+
+Lemma scalar_equal_refl k kb v : scalar_nan_free k kb v = true -> scalar_equal k kb v v = true.
+Proof.
+  unfold scalar_nan_free, scalar_equal. intros H.
+  destruct k; try apply opt_value_eqb_refl.
+  destruct v as [[x|x|x]|]; try apply opt_value_eqb_refl.
+  apply float_eqb_refl. apply negb_true_iff. exact H.
+Qed.
+
+(* a module without Float fields: every tree is NaN-free *)
+Lemma float_free_nan_free m : float_free m = true -> forall f,
+  (forall ty r, ty_float_free ty = true -> nan_free_type m f ty r = true) /\
+  (forall d e, float_free_sdef d = true -> nan_free_struct m f d e = true).
+Proof.
+  intros Hnf. induction f as [|f [IHt IHs]]; [split; reflexivity|]. split.
+  - intros ty r Hty. cbn [nan_free_type]. destruct ty as [k kb bo|tid args ad|el es].
+    + destruct k; try reflexivity. discriminate Hty.
+    + destruct (nth_error m tid) as [d|] eqn:Ed; [|reflexivity]. apply IHs.
+      unfold float_free in Hnf. rewrite forallb_forall in Hnf. apply Hnf. eapply nth_error_In; exact Ed.
+    + apply forallb_forall. intros x _. apply IHt. exact Hty.
+  - intros d e Hd. cbn [nan_free_struct]. apply forallb_forall. intros i _.
+    destruct (nth_error (fields d) i) as [fd|] eqn:Ef; [|reflexivity].
+    destruct (nth_error e i) as [[r|]|]; try reflexivity.
+    destruct (fbody_of fd) as [start size ty rq| | |] eqn:Eb; try reflexivity.
+    destruct (fr_has r) as [[|]|]; try reflexivity.
+    apply IHt. unfold float_free_sdef in Hd. rewrite forallb_forall in Hd.
+    specialize (Hd fd (nth_error_In _ _ Ef)). rewrite Eb in Hd. exact Hd.
+Qed.
+
 Section EqualsTrue.
   Variable m : module.
   Hypothesis Hwf : wf_stable m = true.
-  Hypothesis Hnf : float_free m = true.
 
-  (* c is a typed Ok tree; a is above a translate of c, b is above c (typed order): then a.Equals(b) *)
+  (* c is a typed Ok tree; a is above a translate of c, b is above c (typed order), and b holds no NaN
+     in a present Float field (on Ok scalars a, b, c, c' carry the same value): then a.Equals(b) *)
   Lemma equals_true_of_tok : forall f,
     (forall ty c c' a b dl,
-       (forall el es, ty <> FArray el es) -> ty_float_free ty = true ->
+       (forall el es, ty <> FArray el es) -> nan_free_type m f ty b = true ->
        tok_type m f ty c -> fsim dl c c' ->
        flet m true (sub_of_ty m ty) c' a -> flet m true (sub_of_ty m ty) c b ->
        equals_type m f ty a b = true) /\
     (forall d ec ec' ea eb dl w1 w2,
-       wf_sdef m d = true -> float_free_sdef d = true ->
+       wf_sdef m d = true -> nan_free_struct m f d eb = true ->
        tok_struct m f d ec -> env_sim dl ec ec' ->
        env_relt m w1 (fields d) ec' ea -> env_relt m w2 (fields d) ec eb ->
        equals_struct m f d ea eb = true).
@@ -884,9 +959,8 @@ Section EqualsTrue.
       pose proof S as Sb. rewrite fsim_eq in Sb. destruct Sb as (_ & Oc' & Vc' & _ & _ & _ & _ & Us & _).
       rewrite Oc in Oc'. specialize (Vc' Oc).
       destruct (flet_ok _ _ _ _ _ Fa Oc') as [_ Va]. destruct (flet_ok _ _ _ _ _ Fb Oc) as [_ Vb].
-      cbn [equals_type]. destruct ty as [k kb bo|tid args ad|el es].
-      + rewrite scalar_equal_not_float by (intros ->; discriminate).
-        rewrite Va, Vb, Vc'. apply opt_value_eqb_refl.
+      cbn [equals_type]. cbn [nan_free_type] in Hff. destruct ty as [k kb bo|tid args ad|el es].
+      + rewrite Vb in Hff. rewrite Va, Vb, Vc'. apply scalar_equal_refl. exact Hff.
       + cbn [sub_of_ty] in Fa, Fb.
         destruct (nth_error m tid) as [d|] eqn:Ed; [|contradiction].
         rewrite flet_eq in Fa, Fb.
@@ -894,7 +968,6 @@ Section EqualsTrue.
         cbn [odfields] in Fa, Fb.
         apply (IHs d (fr_sub c) (fr_sub c') (fr_sub a) (fr_sub b) dl true true); try assumption.
         eapply wf_sdef_of; eassumption.
-        unfold float_free in Hnf. rewrite forallb_forall in Hnf. apply Hnf. eapply nth_error_In; eassumption.
       + exfalso. eapply Hna; reflexivity.
     - intros d ec ec' ea eb dl w1 w2 Hd Hfd T S Fa Fb.
       cbn [tok_struct] in T. cbn [equals_struct]. apply forallb_forall. intros i Hi.
@@ -903,7 +976,7 @@ Section EqualsTrue.
       destruct (nth_error ec i) as [[rc|]|] eqn:Ec; try contradiction.
       destruct (olist_sim_some _ _ _ _ _ S Ec) as (rc' & Ec' & Sc).
       destruct (tlist_le_nth _ _ _ _ _ _ _ _ Fa Ec') as (ra & -> & Fra).
-      destruct (tlist_le_nth _ _ _ _ _ _ _ _ Fb Ec) as (rb & -> & Frb).
+      destruct (tlist_le_nth _ _ _ _ _ _ _ _ Fb Ec) as (rb & ErB & Frb). rewrite ErB.
       rewrite Ef in Fra, Frb.
       pose proof (wf_field_of m d fd Hd (nth_error_In _ _ Ef)) as Hwfd. unfold wf_field in Hwfd.
       pose proof Sc as Sb. rewrite fsim_eq in Sb. destruct Sb as (Hc' & Oc' & Vc' & _).
@@ -912,8 +985,8 @@ Section EqualsTrue.
         unfold krel in Fra, Frb.
         destruct (fbody_of fd) as [start size ty rq | rd rq | p aty | pi] eqn:Eb; try reflexivity.
         * cbn [member_test Bool.eqb andb]. apply (IHt ty rc rc' ra rb dl); try assumption.
-          2:{ unfold float_free_sdef in Hfd. rewrite forallb_forall in Hfd.
-              specialize (Hfd fd (nth_error_In _ _ Ef)). rewrite Eb in Hfd. exact Hfd. }
+          2:{ cbn [nan_free_struct] in Hfd. rewrite forallb_forall in Hfd.
+              specialize (Hfd i Hi). rewrite Ef, ErB, Eb, (flet_has _ _ _ _ _ _ Frb Hh) in Hfd. exact Hfd. }
           intros el es ->. cbn in Hwfd. discriminate.
         * cbn [member_test Bool.eqb andb]. rewrite T in Oc'. specialize (Vc' T).
           destruct (fle0_ok _ _ (ple_fle0 _ _ _ Fra) Oc') as [_ Va].
@@ -965,7 +1038,7 @@ Section Copy.
      No overlap condition is needed for "Ok and Equals the OLD source" (memmove semantics);
      the statement about the source re-read from the new memory needs the source window to be
      unchanged: disjoint from the copied range or the same start address. *)
-  Theorem copy_then_equals d ps pinit fuel mem o1 l1 o2 l2 n :
+  Theorem copy_then_equals_nan_free d ps pinit fuel mem o1 l1 o2 l2 n :
     In d m ->
     0 <= o1 -> o1 + l1 <= Z.of_nat (length mem) ->
     0 <= o2 -> o2 + l2 <= Z.of_nat (length mem) ->
@@ -976,12 +1049,13 @@ Section Copy.
       view_try_copy mem (Some (o1, l1)) src = Some mem' /\ length mem' = length mem /\
       let dst' := eval_struct m mem' fuel d ps pinit (SB (Some (o1, l1))) in
       fr_sok dst' = true /\ fr_ssize dst' = Some n /\
-      (float_free m = true -> equals_struct m fuel d (fr_sub dst') (fr_sub src) = true) /\
+      (nan_free_struct m fuel d (fr_sub src) = true -> equals_struct m fuel d (fr_sub dst') (fr_sub src) = true) /\
       (forall g, observe g (eval_struct m mem' fuel d ps pinit (SB (Some (o1, n)))) =
                  observe g (eval_struct m mem fuel d ps pinit (SB (Some (o2, n))))) /\
       ((o1 = o2 \/ o1 + n <= o2 \/ o2 + l2 <= o1) ->
        let src' := eval_struct m mem' fuel d ps pinit (SB (Some (o2, l2))) in
-       fr_sok src' = true /\ (float_free m = true -> equals_struct m fuel d (fr_sub dst') (fr_sub src') = true)).
+       fr_sok src' = true /\
+       (nan_free_struct m fuel d (fr_sub src) = true -> equals_struct m fuel d (fr_sub dst') (fr_sub src') = true)).
   Proof.
     intros Hd Ho1 Hl1 Ho2 Hl2 src Hok Hsz Hn Hn1 Hself.
     assert (Hwd : wf_sdef m d = true).
@@ -1014,13 +1088,12 @@ Section Copy.
       fold src_n in Ez. pose proof (flet_ssize _ _ _ _ _ _ G1 Ez) as E2. rewrite Hsz in E2. congruence. }
     assert (Hokd : fr_sok dst' = true).
     { rewrite flet_eq in G2. destruct G2 as (_ & _ & G2 & _). apply G2. rewrite Sok. exact Hself. }
-    assert (Heq : float_free m = true -> equals_struct m fuel d (fr_sub dst') (fr_sub src) = true).
+    assert (Heq : nan_free_struct m fuel d (fr_sub src) = true ->
+                  equals_struct m fuel d (fr_sub dst') (fr_sub src) = true).
     { intros Hnf.
-      assert (Hfd : float_free_sdef d = true)
-        by (unfold float_free in Hnf; rewrite forallb_forall in Hnf; apply Hnf; exact Hd).
-      apply (proj2 (equals_true_of_tok m Hwf Hnf fuel) d (fr_sub src_n) (fr_sub dst_n) (fr_sub dst') (fr_sub src) (o1 - o2) false false).
+      apply (proj2 (equals_true_of_tok m Hwf fuel) d (fr_sub src_n) (fr_sub dst_n) (fr_sub dst') (fr_sub src) (o1 - o2) false false).
       - exact Hwd.
-      - exact Hfd.
+      - exact Hnf.
       - apply ok_view_tok. exact Hself.
       - exact Ssub.
       - rewrite flet_eq in G2. apply G2.
@@ -1039,6 +1112,40 @@ Section Copy.
     split; [rewrite Sok2; exact Hok|].
     intros Hnf. rewrite <- (Heq Hnf). symmetry.
     eapply (proj2 (equals_sim m fuel)); try eassumption; apply ok_view_tok; assumption.
+  Qed.
+
+
+  (* the class form: a module without Float fields (every tree is NaN-free) *)
+  Theorem copy_then_equals d ps pinit fuel mem o1 l1 o2 l2 n :
+    In d m ->
+    0 <= o1 -> o1 + l1 <= Z.of_nat (length mem) ->
+    0 <= o2 -> o2 + l2 <= Z.of_nat (length mem) ->
+    let src := eval_struct m mem fuel d ps pinit (SB (Some (o2, l2))) in
+    fr_sok src = true -> fr_ssize src = Some n -> 0 <= n -> n <= l1 ->
+    fr_sok (eval_struct m mem fuel d ps pinit (SB (Some (o2, n)))) = true ->
+    exists mem',
+      view_try_copy mem (Some (o1, l1)) src = Some mem' /\ length mem' = length mem /\
+      let dst' := eval_struct m mem' fuel d ps pinit (SB (Some (o1, l1))) in
+      fr_sok dst' = true /\ fr_ssize dst' = Some n /\
+      (float_free m = true -> equals_struct m fuel d (fr_sub dst') (fr_sub src) = true) /\
+      (forall g, observe g (eval_struct m mem' fuel d ps pinit (SB (Some (o1, n)))) =
+                 observe g (eval_struct m mem fuel d ps pinit (SB (Some (o2, n))))) /\
+      ((o1 = o2 \/ o1 + n <= o2 \/ o2 + l2 <= o1) ->
+       let src' := eval_struct m mem' fuel d ps pinit (SB (Some (o2, l2))) in
+       fr_sok src' = true /\ (float_free m = true -> equals_struct m fuel d (fr_sub dst') (fr_sub src') = true)).
+  Proof.
+    intros Hd Ho1 Hl1 Ho2 Hl2 src Hok Hsz Hn Hn1 Hself.
+    destruct (copy_then_equals_nan_free d ps pinit fuel mem o1 l1 o2 l2 n Hd Ho1 Hl1 Ho2 Hl2 Hok Hsz Hn Hn1 Hself)
+      as (mem' & H1 & H2 & H3 & H4 & H5 & H6 & H7).
+    assert (Hnan : float_free m = true -> nan_free_struct m fuel d (fr_sub src) = true).
+    { intros Hnf. apply (proj2 (float_free_nan_free m Hnf fuel)).
+      unfold float_free in Hnf. rewrite forallb_forall in Hnf. apply Hnf. exact Hd. }
+    exists mem'. split; [exact H1|]. split; [exact H2|]. intros dst'.
+    split; [exact H3|]. split; [exact H4|].
+    split; [intros Hnf; apply H5; apply Hnan; exact Hnf|].
+    split; [exact H6|].
+    intros Hov src'. destruct (H7 Hov) as [H8 H9].
+    split; [exact H8|]. intros Hnf. apply H9. apply Hnan. exact Hnf.
   Qed.
 
   (* the common case: the source view was made over exactly its own size *)
@@ -1324,6 +1431,7 @@ Print Assumptions eval_local_scrub.
 Print Assumptions eval_local_observe.
 Print Assumptions eval_shift.
 Print Assumptions equals_local.
+Print Assumptions copy_then_equals_nan_free.
 Print Assumptions copy_then_equals.
 Print Assumptions copy_then_equals_exact.
 Print Assumptions eval_local_tree_refuted.
@@ -1337,7 +1445,10 @@ Print Assumptions copy_self_contained_forced.
    the quiet NaN 0x7fc00000.  TryToCopyFrom succeeds, the destination is Ok, has the source's size and
    the source's bytes, yet destination.Equals(source) is false (and source.Equals(source) is false):
    the clause "after a successful copy the destination Equals the source" of C20 does not hold for
-   structures with Float fields.  [copy_then_equals] therefore carries the hypothesis float_free m. *)
+   structures with Float fields.  [copy_then_equals] therefore carries the hypothesis float_free m;
+   [copy_then_equals_nan_free] replaces that class hypothesis by the precise data hypothesis
+   [nan_free_struct] on the source view (no present Float field holds a NaN pattern), and
+   [copy_then_equals_float_instance] below applies it to this module with the pattern of 1.0f. *)
 Definition m_float : module :=
   [mk_sdef 8 0%nat
      [mk_field ktrue (Phys (kz 0) (kz 4) (FScalar KFloat 32 LE) None);
@@ -1363,6 +1474,46 @@ Proof.
   cbn [length]. repeat (split; [lia|]).
   cbv zeta. split; [reflexivity|]. split; [reflexivity|]. repeat (split; [lia|]).
   vm_compute. repeat split; reflexivity.
+Qed.
+
+(* the same module, the same windows, the source holds 1.0f = 0x3f800000: the source is NaN-free, so
+   [copy_then_equals_nan_free] applies although float_free m_float = false: the copy is Equal *)
+Definition copy_mem_float : list Z := [0; 0; 128; 63; 9; 9; 9; 9].
+Example copy_then_equals_float_instance :
+  float_free m_float = false /\
+  nan_free_struct m_float 4 d_float
+    (fr_sub (eval_struct m_float copy_mem_float 4 d_float [] true (SB (Some (0, 4))))) = true /\
+  exists mem',
+    view_try_copy copy_mem_float (Some (4, 4))
+      (eval_struct m_float copy_mem_float 4 d_float [] true (SB (Some (0, 4)))) = Some mem' /\
+    length mem' = length copy_mem_float /\
+    let dst' := eval_struct m_float mem' 4 d_float [] true (SB (Some (4, 4))) in
+    fr_sok dst' = true /\ fr_ssize dst' = Some 4 /\
+    equals_struct m_float 4 d_float (fr_sub dst')
+      (fr_sub (eval_struct m_float copy_mem_float 4 d_float [] true (SB (Some (0, 4))))) = true.
+Proof.
+  split; [reflexivity|]. split; [vm_compute; reflexivity|].
+  destruct (copy_then_equals_nan_free m_float eq_refl d_float [] true 4 copy_mem_float 4 4 0 4 4)
+    as (mem' & H1 & H2 & H3 & H4 & H5 & _); try (unfold copy_mem_float; cbn [length]; lia); try reflexivity.
+  - left. reflexivity.
+  - exists mem'. repeat (split; [assumption|]). apply H5. vm_compute. reflexivity.
+Qed.
+
+Example copy_then_equals_float_nonvacuous :
+  let src := eval_struct m_float copy_mem_float 4 d_float [] true (SB (Some (0, 4))) in
+  let mem' := [0; 0; 128; 63; 0; 0; 128; 63] in
+  fr_sok src = true /\ fr_ssize src = Some 4 /\
+  (exists x, nth_error (fr_sub src) 0 = Some (Some x) /\ fr_ok x = true /\ fr_val x = Some (VInt 1065353216)) /\
+  view_try_copy copy_mem_float (Some (4, 4)) src = Some mem' /\
+  (* before the copy the destination (0x09090909) does not equal the source *)
+  equals_struct m_float 4 d_float (fr_sub (eval_struct m_float copy_mem_float 4 d_float [] true (SB (Some (4, 4))))) (fr_sub src) = false /\
+  equals_struct m_float 4 d_float (fr_sub (eval_struct m_float mem' 4 d_float [] true (SB (Some (4, 4))))) (fr_sub src) = true /\
+  (* the NaN source of [copy_then_equals_refuted_float_nan] is rejected by the predicate *)
+  nan_free_struct m_float 4 d_float
+    (fr_sub (eval_struct m_float [0; 0; 192; 127; 9; 9; 9; 9] 4 d_float [] true (SB (Some (0, 4))))) = false.
+Proof.
+  vm_compute. split; [reflexivity|]. split; [reflexivity|].
+  split; [eexists; repeat split; reflexivity|]. repeat split; reflexivity.
 Qed.
 
 (* +0.0 and -0.0 read equal: two views whose Float bytes differ in the sign bit only are Equal *)
